@@ -43,6 +43,18 @@ func U64(t *rapid.T, label string) uint64 {
 func Key(t *rapid.T, label string) ref.Key {
 	var k ref.Key
 	copy(k[:], rapid.SliceOfN(rapid.Byte(), 16, 16).Draw(t, label))
+	// special key values: the all-zero key (an "unset" key in many data models), all ones, a single bit
+	switch rapid.IntRange(0, 23).Draw(t, label+"?") {
+	case 0:
+		k = ref.Key{}
+	case 1:
+		for i := range k {
+			k[i] = 0xff
+		}
+	case 2:
+		k = ref.Key{}
+		k[15] = 1
+	}
 	return k
 }
 
